@@ -260,7 +260,10 @@ def c01(ctx):
                                          LoginPins='{"P1", "P2"}')),
                       # key-making calls that fail late (template refused while the object is built) next to bystanders
                       ("c01-fail", consts(Tokens='{"t1"}', Acts='{"sess", "obj", "makefail", "rightpin"}', MaxH="3", MaxO="2",
-                                          LoginPins='{"P1", "P2"}'))]
+                                          LoginPins='{"P1", "P2"}')),
+                      # the classes whose CKA_PRIVATE defaults to false (an explicit CKA_PRIVATE = true counts, wherever it stands)
+                      ("c01-pubcls", consts(Tokens='{"t1"}', Acts='{"sess", "obj", "attr", "rightpin"}', MaxH="3", MaxO="1",
+                                            LoginPins='{"P1", "P2"}'), ["cert", "pubkey"])]
             classes = ["aes"]
         else:
             graphs = [("c01-one", consts(Tokens='{"t1"}', Acts=fam, MaxH="4", MaxO="2", LoginPins='{"P1", "P2"}')),
@@ -337,5 +340,17 @@ def c19(ctx):
              "searches): every transition of the bounded graphs is executed; TLC checks that the handles returned are "
              "exactly the visible matching objects, each once, identified through their identity attribute.",
     ))
+    # "objects of the session's token": also the token objects ANOTHER PROCESS has created or destroyed in the meantime - a
+    # sample of the behaviours of P11MP (two processes, call grain; the subject of C15) with the searches judged as here
+    if not ctx.violations:
+        K5 = '{"create", "set", "get", "destroy", "find"}'
+        mg = [dict(name="c19-procs", constants=dict(Procs="{1, 2}", MaxO="2", Vals="{0, 1}", NCalls="0", Logged="{1}", Kinds=K5),
+                   trace_constants=dict(Procs="{1, 2, 3}", MaxO="6", Vals="{0, 1, 2}", NCalls="0", Logged="{1}", Kinds=K5),
+                   driver_args=[lib, "2", "1"], maxlen=30, maxwalks=600 if quick else 6000)]
+        r3 = pipeline.graphs_replay(ctx, "P11MP", "Trace_MP", "vf.drv_mp", mg, ["TypeOK", "HandlesLegit"], ["DeadIsFinal"],
+                                    maxlen=30, jobs=15)
+        ctx.coverage["two_processes"] = dict(executions=r3["executions"], accepted=r3["accepted"],
+                                             model_transitions=r3["edges_total"], replayed=r3["edges_replayed"])
+        ctx.coverage["traces_validated_against_impl"] += r3["accepted"]
     ctx.assumptions += ["a search is a snapshot taken by C_FindObjectsInit: handles of objects destroyed or hidden "
                         "afterwards may still be returned (they are invalid and open nothing)"]
